@@ -56,7 +56,9 @@ func (p *Profile) FilterSamplesByName(focus, ignore, hide, show *regexp.Regexp) 
 
 	s := make([]*Sample, 0, len(p.Sample))
 	for _, sample := range p.Sample {
-		if focusedAndNotIgnored(sample.Location, focusOrIgnore) {
+		// Without a focus expression a sample with an empty stack has
+		// nothing that ignore could match, so it is kept.
+		if focusedAndNotIgnored(sample.Location, focusOrIgnore) || (focus == nil && len(sample.Location) == 0) {
 			if len(hidden) > 0 {
 				var locs []*Location
 				for _, loc := range sample.Location {
